@@ -88,7 +88,8 @@ def ec_add(p1, p2):
     return (x3, (lam * (x1 - x3) - y1) % P)
 
 
-def ec_mul(k, pt):
+def ec_mul_affine(k, pt):
+    """[k]pt by double-and-add on the affine law above (the definition; used to cross-check ec_mul)"""
     r = None
     q = pt
     while k > 0:
@@ -97,6 +98,50 @@ def ec_mul(k, pt):
         q = ec_add(q, q)
         k >>= 1
     return r
+
+
+def _jdbl(X, Y, Z):
+    if Y == 0 or Z == 0:
+        return (1, 1, 0)
+    S = 4 * X * Y * Y % P
+    M = (3 * X * X + A * Z * Z % P * Z * Z) % P
+    X3 = (M * M - 2 * S) % P
+    return (X3, (M * (S - X3) - 8 * Y * Y % P * Y * Y) % P, 2 * Y * Z % P)
+
+
+def _jadd(X1, Y1, Z1, x2, y2):
+    """Jacobian + affine, all special cases handled"""
+    if Z1 == 0:
+        return (x2, y2, 1)
+    Z1Z1 = Z1 * Z1 % P
+    U2 = x2 * Z1Z1 % P
+    S2 = y2 * Z1 % P * Z1Z1 % P
+    H = (U2 - X1) % P
+    R = (S2 - Y1) % P
+    if H == 0:
+        return _jdbl(X1, Y1, Z1) if R == 0 else (1, 1, 0)
+    HH = H * H % P
+    HHH = H * HH % P
+    V = X1 * HH % P
+    X3 = (R * R - HHH - 2 * V) % P
+    return (X3, (R * (V - X3) - Y1 * HHH) % P, Z1 * H % P)
+
+
+def ec_mul(k, pt):
+    """[k]pt; same function as ec_mul_affine, computed in Jacobian coordinates (one inversion instead of ~380):
+    the predicates evaluate thousands of scalar multiplications per run.  _selftest compares the two."""
+    if pt is None or k <= 0:
+        return None
+    x2, y2 = pt[0] % P, pt[1] % P
+    X, Y, Z = 1, 1, 0
+    for i in range(k.bit_length() - 1, -1, -1):
+        X, Y, Z = _jdbl(X, Y, Z)
+        if (k >> i) & 1:
+            X, Y, Z = _jadd(X, Y, Z, x2, y2)
+    if Z == 0:
+        return None
+    zi = pow(Z, -1, P)
+    return (X * zi * zi % P, Y * zi * zi % P * zi % P)
 
 
 def i2osp(x, n=32):
@@ -360,7 +405,12 @@ def zint(s):
 def _selftest():
     assert sm3(b"abc").hex() == "66c7f0f462eeedd9d1f2d46bdc10e4e24167c4875cf2f7a2297da02b8f4ba8e0"
     assert sm3(b"abcd" * 16).hex() == "debe9ff92275b8a1386048 89c18e5a4d6fdb70e5387e5765293dcba39c0c5732".replace(" ", "")
-    assert on_curve(G) and ec_mul(N, G) is None
+    assert on_curve(G) and ec_mul(N, G) is None and ec_mul_affine(N, G) is None
+    for kk in (1, 2, 3, 5, N - 1, N - 2, 2 ** 255 % N, 2 ** 128 + 1, 0x3945208F7B2144B13F36E38AC6D39F95889393692860B51A42FB81EF4DF7C5B8):
+        assert ec_mul(kk, G) == ec_mul_affine(kk, G), kk
+        q = ec_mul_affine(7, G)
+        assert ec_mul(kk, q) == ec_mul_affine(kk, q), kk
+    assert ec_mul(5, (3, 0)) == ec_mul_affine(5, (3, 0))   # order-2 point of another curve: y = 0
     # GM/T 0003.5 key exchange example
     da = 0x81EB26E941BB5AF16DF116495F90695272AE2CD63D6C4AE1678418BE48230029
     db = 0x785129917D45A9EA5437A59356B82338EAADDA6CEB199088F14AE10DEFA229B5
